@@ -42,6 +42,17 @@ pub use ax::*;
 // A2: assumed contracts of std functions on f32
 pub assume_specification [f32::min] (a: f32, b: f32) -> (r: f32) ensures rv(r) == rmin(rv(a), rv(b));
 pub assume_specification [f32::abs] (a: f32) -> (r: f32) ensures rv(r) == rabs(rv(a));
+pub assume_specification [f32::max] (a: f32, b: f32) -> (r: f32) ensures rv(r) == rmax(rv(a), rv(b));
+// not used by the pinned tree: given an (uninterpreted) meaning so that a tree that starts to round a value is still assembled and decided
+// by the obligations it breaks, instead of leaving the whole unit undecided ("unsupported function")
+pub uninterp spec fn rround(a: real) -> real;
+pub uninterp spec fn rfloor(a: real) -> real;
+pub uninterp spec fn rceil(a: real) -> real;
+pub uninterp spec fn rtrunc(a: real) -> real;
+pub assume_specification [f32::round] (a: f32) -> (r: f32) ensures rv(r) == rround(rv(a));
+pub assume_specification [f32::floor] (a: f32) -> (r: f32) ensures rv(r) == rfloor(rv(a));
+pub assume_specification [f32::ceil] (a: f32) -> (r: f32) ensures rv(r) == rceil(rv(a));
+pub assume_specification [f32::trunc] (a: f32) -> (r: f32) ensures rv(r) == rtrunc(rv(a));
 
 // sum of a sequence of f32 in the real model
 pub open spec fn sumf(s: Seq<f32>) -> real decreases s.len() {
